@@ -79,4 +79,8 @@ def gen_bins(rng):
     if rng.random() < 0.4:                         # pairs that exactly fill a bin
         a = rng.randint(1, cap - 1)
         sizes[: 2] = [a, cap - a][: len(sizes[: 2])] if n >= 2 else sizes
+    if rng.random() < 0.25 and n >= 3:              # several items of exactly half the capacity among smaller ones, shuffled
+        k = rng.randint(2, min(4, n))
+        sizes = [cap // 2] * k + [rng.randint(1, max(1, cap // 2)) for _ in range(n - k)]
+        rng.shuffle(sizes)
     return {"sizes": sizes, "capacity": cap, "scale": sc}
